@@ -548,6 +548,19 @@ func TestC07Sim(t *testing.T) {
 			s.WriteSource(fmt.Sprintf("g%d/f%d.dat", t.Pick("group", conf.Groups), i), sizes("size"), time.Duration(10+nf-i)*time.Minute)
 		}
 		s.crashAt = t.IntRange("crashAtAction", 1, 160)
+		if t.Weighted("aimedCrash", 1, 1) == 1 {
+			// aim at the boundary before / after the n-th action of one kind, so that rare
+			// boundaries (around the delete, the done-marking, the sent log) get their share
+			kinds := []string{"remove", "remove", "cache-persist", "cache-done", "cache-persist", "sent-log", "request poll", "request data", "request recover", "cache-add", "open", "scan"}
+			s.crashAt = 0
+			s.crashKind = kinds[t.Pick("crashKind", len(kinds))]
+			s.crashNth = t.IntRange("crashNth", 1, 6)
+			s.crashAfter = t.Bool("crashAfter")
+			t.Note("aimed crash: %s the %d. %q action", map[bool]string{true: "after", false: "before"}[s.crashAfter], s.crashNth, s.crashKind)
+			if s.crashAfter {
+				t.Class("crash-after:" + strings.SplitN(s.crashKind, " ", 2)[0])
+			}
+		}
 		s.StartSender()
 		crashes := 0
 		steps := t.IntRange("nSteps", 10, 120)
@@ -584,7 +597,9 @@ func TestC07Sim(t *testing.T) {
 			}
 			s.observe()
 		}
-		s.crashAt = 0
+		s.mu.Lock()
+		s.crashAt, s.crashKind = 0, ""
+		s.mu.Unlock()
 		if s.needRestart {
 			s.CrashSender()
 			s.StartSender()
